@@ -699,8 +699,6 @@ def match_finding(c, what):
     if c["in"][0] >= 6:
         return None
     way, d, lhs, expr, pos, mode, lists, rows = c["in"]
-    if way == 1 and d == 0 and lhs[0] == 1 and expr[0] == 0 and "does not execute" in what and any(len(l) == 0 for l in lists):
-        return "C07-literal-empty-tuple-values-sqlite"
     if expr[0] == 1 and lhs[0] == 1:
         if way == 1 and "exception code 5" in what:
             return "C07-literal-nulltype-tuple-attributeerror"
